@@ -13,6 +13,7 @@ from .model import Program, Func, strip_doc, dotted
 
 MODULE_BASES = {"torch", "math", "F", "ein", "np", "einops", "functools", "cmath"}
 CASTS = {"float", "bool", "long", "int", "double", "half", "type_as"}
+IDENTITY_CASTS = {"astensors", "_astensorsfloat"}   # repo helpers that only convert their arguments to tensors
 DEFAULT_POSITIVE = (
     "step_time", "dt", "self.dt", "time_constant", "tc", "tc_pre", "tc_post", "size", "recordsz",
     "self.recordsz", "self.__dt", "self.time_constant", "rate_constant",
@@ -140,6 +141,9 @@ class Builder:
             if k is not None and k.denominator == 1 and abs(k) <= 6:
                 if k < 0 and a.is_zero():
                     return app("pow", a, b)
+                at_ = a.as_atom()
+                if k == 2 and at_ is not None and at_.op == "sqrt" and isinstance(at_.args[0], Rat):
+                    return at_.args[0]
                 return a.pow(int(k))
             return app("pow", a, b)
         if isinstance(op, ast.Mod):
@@ -426,6 +430,8 @@ class Builder:
                 return args[0]
             if n in ("tensor", "as_tensor", "scalar_tensor") and not is_method and len(args) == 1:
                 return args[0]
+        if n in IDENTITY_CASTS and not is_method and args:
+            return args[0] if len(args) == 1 else tuple(args)
         if n in ("zeros", "zeros_like") and len(args) >= 1:
             return C(0)
         if n in ("ones", "ones_like") and len(args) >= 1:
